@@ -286,6 +286,28 @@ def run_check(prop, tier, seed, replay=None):
                 path = write_replay(prop, seed, k, {"property": prop, "kind": "oracle-failure", "harness": r["bin"], "what": o["what"],
                                                     "class": o["class"], "cases": o["replay_case"], "seed": seed})
                 violations.append(path)
+    searched = 0
+    if not violations and tie_breaks and hb_ok and mb_ok and not replay:
+        # a tie broke: search the implementation for a concrete input on which the property itself now fails
+        # (more histories / other seeds through the same property oracles)
+        for attempt in range(1, 4):
+            for h in spec.get("harness", []):
+                if violations:
+                    break
+                hs = dict(h); hs["quick"] = h.get("search", h.get("thorough", h.get("quick", []))); hs["name"] = h.get("name", h["bin"]) + "-search"
+                r = run_harness(prop, hs, "quick", int(seed) + 7919 * attempt)
+                searched += r.get("stats", {}).get("evaluations", 0)
+                for o in r["oracle"]:
+                    if o["property"] != prop or (o["class"] and o["class"] in known_classes):
+                        continue
+                    k += 1
+                    path = write_replay(prop, seed, k, {"property": prop, "kind": "oracle-failure", "found_by": "search after tie break",
+                                                        "harness": r["bin"], "what": o["what"], "class": o["class"], "cases": o["replay_case"],
+                                                        "seed": int(seed) + 7919 * attempt, "broken": [n for n, _ in tie_breaks[:10]]})
+                    violations.append(path)
+                    break
+            if violations:
+                break
     if not violations and tie_breaks:
         # a proof / translator / correspondence no longer checks and no failing input was found
         path = write_replay(prop, seed, 0, {"property": prop, "kind": "tie-broken", "no_failing_input_found": True,
@@ -318,7 +340,7 @@ def run_check(prop, tier, seed, replay=None):
             "correspondence_disagreements": sum(len(r["disagreements"]) for r in runs),
             "oracle_failures_this_property": k, "known_finding_hits": sorted(known_hits),
             "translators": [{"name": n, "ok": ok} for n, ok, _ in tr],
-            "tie_breaks": [n for n, _ in tie_breaks],
+            "tie_breaks": [n for n, _ in tie_breaks], "failing_input_search_evaluations": searched,
         },
         "assumptions": spec.get("assumptions", []),
         "wall_s": round(time.time() - t0, 2),
